@@ -12,7 +12,7 @@ Local Open Scope N_scope.
 
 (* scss_link_j (FixedLibEvents.v) with the canonicity of the split exposed: no block of the redo part is on
    the old head's chain *)
-Lemma scss_link_x d lib hd np pH pP : wf_store (store d) -> hd <> np ->
+Lemma scss_link_x d lib hd np pH pP : wf_store (store d) -> lib <> 0 -> hd <> np ->
   chain (store d) hd lib pH -> chain (store d) np lib pP ->
   (forall f t e, undo_chain f d lib = Some (lib :: t) -> In e pP -> ~ In (key e) t) ->
   exists C R Uh,
@@ -30,10 +30,14 @@ Lemma scss_link_x d lib hd np pH pP : wf_store (store d) -> hd <> np ->
                      end
          end).
 Proof.
-  intros Hwf Hne HH HP Htail.
+  intros Hwf Hlib0 Hne HH HP Htail.
   destruct (meet _ _ _ _ Hwf HH np pP HP) as (C & R & j & HeqP & HR & Hdis & Hj).
-  destruct (undo_chain_chain d Hwf _ _ _ HH (fuel_of d) (enough_fuel_of d hd)) as [t Ht].
-  destruct (undo_tail d Hwf _ _ _ HH _ _ Ht) as [f0 Hf0].
+  destruct (undo_chain_chain d Hwf _ _ _ HH Hlib0 (fuel_of d) (enough_fuel_of d hd)) as [t Ht].
+  destruct (undo_tail d Hwf _ _ _ HH Hlib0 _ _ Ht) as [f0 Hf0].
+  assert (Hj0 : j <> 0).
+  { destruct Hj as [[_ ->]|(C0 & ej & Uh & HC & Hk & HpH)]; [exact Hlib0|].
+    rewrite <- Hk. apply (ws_id _ Hwf ej). eapply chain_in; [exact HH|]. rewrite HpH, HC.
+    apply in_or_app. left. apply in_or_app. right. left. reflexivity. }
   assert (Hsplit : exists Uh rest, pH = C ++ Uh /\ rev (map key pH) ++ lib :: t = rev (map key Uh) ++ j :: rest /\ ~ In j (rev (map key Uh))).
   { destruct Hj as [[-> ->]|(C0 & ej & Uh & -> & Hk & HpH)].
     - exists pH, t. repeat split. intros Hin. apply in_rev in Hin. apply in_map_iff in Hin as (e & Hke & Hin).
@@ -48,7 +52,7 @@ Proof.
   unfold sent_chain_switch_segments. destruct (N.eqb_spec hd np) as [E|_]; [contradiction|].
   unfold chain_switch_segments. rewrite Ht.
   assert (Hredo : redo_chain (fuel_of d) d (rev (map key pH) ++ lib :: t) np [] = Some (Some (map key R ++ [], j))).
-  { apply redo_chain_chain; [exact Hwf | exact HR | | | apply enough_fuel_of].
+  { apply redo_chain_chain; [exact Hwf | exact HR | exact Hj0 | | | apply enough_fuel_of].
     - intros e He. destruct (memN (key e) (rev (map key pH) ++ lib :: t)) eqn:M; [|reflexivity].
       exfalso. apply memN_in in M. apply in_app_or in M as [M|[M|M]].
       + apply in_rev in M. apply (proj1 (Hdis e He)). exact M.
@@ -130,7 +134,7 @@ Section KeptForms.
   Hypothesis Hnew : f_new (c_filter cfg) = true.
   Hypothesis Hundo : f_undo (c_filter cfg) = true.
 
-  Hypothesis U_id : forall b, In b U -> bid b <> 0 /\ bparent b <> 0 /\ bid b <> bparent b.
+  Hypothesis U_id : forall b, In b U -> bid b <> 0 /\ bid b <> bparent b.
   Hypothesis U_uniq : forall x y, In x U -> In y U -> bid x = bid y -> x = y.
   Hypothesis U_up : forall x y, In x U -> In y U -> bparent x = bid y -> bnum y < bnum x.
   Hypothesis L_id : ri r0 <> 0.
@@ -160,7 +164,7 @@ Section KeptForms.
     specialize (Hroot Hci).
     assert (Hf : find (bid b) (store (db s)) = None) by (rewrite Hid; exact Hroot).
     assert (Hk : ~ In (bid b) (keys (store (db s)))) by (apply find_none; exact Hf).
-    destruct (U_id b Hb) as (H1 & H2 & H3).
+    destruct (U_id b Hb) as (H1 & H3).
     pose proof (x_cur _ _ HX) as Hcur.
     unfold fk_step. destruct (N.eqb_spec (bid b) (bparent b)); [contradiction|].
     unfold dropped in Hd. rewrite Els in *. rewrite Hd, Hci, Hflast.
@@ -215,7 +219,7 @@ Section KeptForms.
                                       (map seg_of (pP ++ [mkEntry b false])) None).
   Proof.
     intros HI Hb Hd Hni Hf.
-    pose proof HI as [Hdb Hfin Hflast Hh]. pose proof Hdb as [Hnd HU Hcoh Hnum Hextra Hlc].
+    pose proof HI as [Hdb Hfin Hflast Hh]. pose proof Hdb as [Hnd HU Hcoh Hnum Hextra Hlc Hrt].
     pose proof (di_wf U r0 U_id U_up _ Hdb) as Hwf.
     pose proof (inv_add U r0 cfg s Fin S b HI Hb Hf Hni) as HI1.
     set (s1 := with_db s (new_db (db s) b)) in *.
@@ -226,7 +230,7 @@ Section KeptForms.
       destruct (last_sent s) as [ls|]; [apply scss_total; exact Hwf | eauto]. }
     destruct Hsw as (undos & redos & junc & Hsw).
     rewrite (fk_step_new' U r0 cfg U_id s b undos redos junc Hdb Hb Hf Hd Hni Hsw). cbv zeta. fold s1.
-    pose proof HI1 as [Hdb1 _ _ _]. pose proof Hdb1 as [Hnd1 HU1 _ Hnum1 _ _].
+    pose proof HI1 as [Hdb1 _ _ _]. pose proof Hdb1 as [Hnd1 HU1 _ Hnum1 _ _ _].
     pose proof (di_wf U r0 U_id U_up _ Hdb1) as Hwf1.
     change (new_db (db s) b) with (db s1).
     destruct (rs_total (db s1) first Hwf1 (fuel_of (db s1)) (bid b) (bnum b) [] (enough_fuel_of _ _)) as [[longest reach] Hrs].
@@ -286,7 +290,7 @@ Section KeptForms.
       last_lib_seen s3 = last_lib_seen s.
   Proof.
     intros HI HX Hb Hf Hni Htr Hc Hsw.
-    pose proof HI as [Hdb Hfin Hflast Hh]. pose proof Hdb as [Hnd HU Hcoh Hnum Hextra Hlc].
+    pose proof HI as [Hdb Hfin Hflast Hh]. pose proof Hdb as [Hnd HU Hcoh Hnum Hextra Hlc Hrt].
     pose proof (di_wf U r0 U_id U_up _ Hdb) as Hwf.
     pose proof (inv_add U r0 cfg s Fin S b HI Hb Hf Hni) as HI1.
     set (s1 := with_db s (new_db (db s) b)) in *.
@@ -321,7 +325,7 @@ Section KeptForms.
           split; [intros e []|]. split; [constructor|]. split; [constructor|]. split; [exact HS|].
           split; [exact Hrun|]. split; [exact Happ|]. split; [exact HI3|]. split; [exact Hst3|].
           split; [exact Hex3|]. split; [exact Hlr3|]. split; [exact Hls3 | exact Hlls3].
-      + destruct (scss_link_x (db s) _ (bid hd) (bparent b) pH pP Hwf Hneq HcH HcP0) as (C & R & Uh & HP & HH & Hdis & Hsc).
+      + destruct (scss_link_x (db s) _ (bid hd) (bparent b) pH pP Hwf (di_lid U r0 _ Hdb) Hneq HcH HcP0) as (C & R & Uh & HP & HH & Hdis & Hsc).
         { intros f t e0 Hu He0. exact (tail_disjoint' U r0 cfg U_id U_up L_id (db s) pP (bparent b) Hdb HcP0 f t e0 Hu He0). }
         rewrite Hsc in Hsw. injection Hsw as <- <- Hjunc.
         rewrite (junction_moving U r0 cfg U_uniq L_id L_num L_up L_decl s Fin S C Uh HI HX) in Hjunc.
@@ -435,7 +439,7 @@ Section Kept.
   Hypothesis Hnew : f_new (c_filter cfg) = true.
   Hypothesis Hundo : f_undo (c_filter cfg) = true.
 
-  Hypothesis U_id : forall b, In b U -> bid b <> 0 /\ bparent b <> 0 /\ bid b <> bparent b.
+  Hypothesis U_id : forall b, In b U -> bid b <> 0 /\ bid b <> bparent b.
   Hypothesis U_uniq : forall x y, In x U -> In y U -> bid x = bid y -> x = y.
   Hypothesis U_up : forall x y, In x U -> In y U -> bparent x = bid y -> bnum y < bnum x.
   Hypothesis L_id : ri r0 <> 0.
@@ -779,8 +783,8 @@ Section Kept.
         rewrite (stored_is_self U U_uniq _ _ _ (di_inU U r0 _ Hdb1) Hb Hf1).
         unfold dropped in Hd. destruct (last_sent s1); [|left; reflexivity]. right. rewrite andb_true_r in Hd. lia. }
       exists s1, s2, [], Fin, S.
-      rewrite (fk_step_old' U cfg U_id U_uniq s1 b e (di_inU U r0 _ Hdb1) Hb Hf1 Hwf1 Hni).
-      rewrite (fk_step_old' U cfg' U_id U_uniq s2 b e (di_inU U r0 _ Hdb2) Hb Hf2 Hwf2 Hni2).
+      rewrite (fk_step_old' U r0 cfg U_id U_uniq U_up s1 b e Hdb1 Hb Hf1 Hni).
+      rewrite (fk_step_old' U r0 cfg' U_id U_uniq U_up s2 b e Hdb2 Hb Hf2 Hni2).
       split; [reflexivity|]. split; [reflexivity|]. split; [exact HI1|]. split; [exact HI2|].
       split; [exact HX1|]. split; [exact HX2 | exact HK]. }
     assert (Hf2 : find (bid b) (store (db s2)) = None)
